@@ -629,6 +629,15 @@ static std::string run_decl(const std::string& ops)
                 p = std::move(q);
                 res = "ok";
             }
+            else if (t[0] == "movea")
+            {
+                // the parser object is move-assigned over another parser (which had its own default group);
+                // the old object goes away
+                auto q = std::make_unique<no::parser>("elsewhere", "another parser");
+                *q = std::move(*p);
+                p = std::move(q);
+                res = "ok";
+            }
             else if (t[0] == "probe")
             {
                 auto argv = nv::unhex_list(t[1]);
